@@ -208,6 +208,9 @@ def expect_tree(io, exp, what):
 
 
 def oracle(case, io, mo):
+    from props.m1common import alias_failure as _af
+    if case[0] != "hist" and _af(io):
+        return _af(io)
     t = sp.norm(case[1])
     if t[0] == "L":
         return None
